@@ -514,10 +514,32 @@ func c09WS(rng *rand.Rand, row map[string]interface{}) (map[string]interface{}, 
 			}
 		}
 		if !pending {
-			if k > 0 { // the handler has just run: its response is at most a round trip behind
-				time.Sleep(2 * time.Millisecond)
-				if err := readUntil(fmt.Sprintf("sentinel-d%d", k)); err != nil {
-					return nil, err
+			hasSlow := false
+			for _, e := range els {
+				hasSlow = hasSlow || e.slow
+			}
+			if hasSlow { // the handler has run: its response (written by its own goroutine) follows; wait for it, within reason
+				for j := 0; j < 50; j++ {
+					missing := false
+					for i, e := range els {
+						if !e.slow || e.idRaw == "" || e.id == "bool" || e.id == "obj" || e.id == "arr" || e.id == "null" {
+							continue
+						}
+						seen := false
+						for _, en := range ents {
+							if en["id"] == i+1 {
+								seen = true
+							}
+						}
+						missing = missing || !seen
+					}
+					if !missing && j > 0 {
+						break
+					}
+					time.Sleep(time.Duration(2+8*j/10) * time.Millisecond)
+					if err := readUntil(fmt.Sprintf("sentinel-d%d-%d", k, j)); err != nil {
+						return nil, err
+					}
 				}
 			}
 			break
